@@ -807,6 +807,57 @@ Definition gen_mk_sig (ver olen ttl : Z) (bad : bool) (w : wtype * Z * Z) (o : l
 """
 
 
+def printers(repo):
+    """TCPOptions.dump (net/layers/tcp/options.py) and dump_quirks (net/quirks.py): the two tables are taken by EVALUATION (contents and
+    order as the interpreter has them), the two bodies are compared with the text they are read as (anything else: Unsupported)."""
+    import importlib
+    opt_mod = importlib.import_module("pyp0f.net.layers.tcp.options")
+    q_mod = importlib.import_module("pyp0f.net.quirks")
+
+    def body_of(path, name, cls=None):
+        tree = ast.parse(open(os.path.join(repo, path), encoding="utf-8").read())
+        scope = tree.body
+        if cls:
+            c = [n for n in tree.body if isinstance(n, ast.ClassDef) and n.name == cls]
+            if len(c) != 1:
+                raise Unsupported("class %s not found" % cls)
+            scope = c[0].body
+        f = [n for n in scope if isinstance(n, ast.FunctionDef) and n.name == name]
+        if len(f) != 1:
+            raise Unsupported("%s not found" % name)
+        return f[0], [ast.unparse(x) for x in f[0].body if not (isinstance(x, ast.Expr) and isinstance(x.value, ast.Constant))]
+    f, b = body_of("pyp0f/net/quirks.py", "dump_quirks")
+    if [a.arg for a in f.args.args] != ["quirks"] or b != ["return ','.join((s for quirk, s in QUIRK_STRINGS.items() if quirk in quirks))"]:
+        fail(f, "dump_quirks is not `','.join(s for quirk, s in QUIRK_STRINGS.items() if quirk in quirks)`")
+    qs = q_mod.QUIRK_STRINGS
+    if not all(isinstance(k, q_mod.Quirk) and isinstance(v, str) for k, v in qs.items()):
+        raise Unsupported("QUIRK_STRINGS is not a Quirk -> str table")
+    out = ["(* ---- printers ---- *)",
+           "Definition gen_QUIRK_STRINGS_out : list (N * text) := [%s]." % "; ".join("((%d)%%N, %s)" % (int(k.value), coq_str(v)) for k, v in qs.items()),
+           "Definition gen_dump_quirks (quirks : N) : text :=\n  join (str \",\") (map snd (filter (fun qs => gen_in (fst qs) quirks) gen_QUIRK_STRINGS_out))."]
+    f, b = body_of("pyp0f/net/layers/tcp/options.py", "dump", cls="TCPOptions")
+    want = ["eol_string = OPTION_STRINGS[TCPOption.EOL].format(padding_length=self.eol_padding_length if self.eol_padding_length is not None else '?')",
+            "return ','.join((OPTION_STRINGS.get(option, f'?{option}') if option != TCPOption.EOL else eol_string for option in self.layout))"]
+    if b != want:
+        fail(f, "TCPOptions.dump is not the expected two statements")
+    os_ = opt_mod.OPTION_STRINGS
+    TO = opt_mod.TCPOption
+    if TO.EOL not in os_ or not all(isinstance(v, str) for v in os_.values()):
+        raise Unsupported("OPTION_STRINGS shape")
+    tmpl = os_[TO.EOL]
+    if tmpl.count("{padding_length}") != 1 or not tmpl.endswith("{padding_length}") or "{" in tmpl[:-len("{padding_length}")] or "}" in tmpl[:-len("{padding_length}")]:
+        raise Unsupported("the EOL string is not `<text>{padding_length}`")
+    for k, v in os_.items():
+        if k != TO.EOL and ("{" in v or "}" in v):
+            raise Unsupported("format field in a plain option string")
+    out.append("Definition gen_OPTION_STRINGS_out : list (Z * text) := [%s]." % "; ".join("((%d), %s)" % (int(k), coq_str(v)) for k, v in os_.items() if k != TO.EOL))
+    out.append("Definition gen_TCPOptions_dump (layout : list Z) (eol_padding_length : Z) : text :=\n"
+               "  let eol_string := %s ++ dec eol_padding_length in      (* str.format of an int: its decimal digits *)\n"
+               "  join (str \",\") (map (fun option => if negb (option =? (%d)) then match gen_zdict_get option gen_OPTION_STRINGS_out with Some t => t | None => str \"?\" ++ dec option end else eol_string) layout)."
+               % (coq_str(tmpl[:-len("{padding_length}")]), int(TO.EOL)))
+    return "\n".join(out)
+
+
 def main():
     repo, out = sys.argv[1], sys.argv[2]
     tr = Tr(repo)
@@ -873,6 +924,7 @@ def main():
     if len(mparse) != 1 or "_parse_mtu" not in tr.globals:
         raise Unsupported("MTUSignature.parse not found")
     parts.append(tr.function(mparse[0], cls="MTUSignature"))
+    parts.append(printers(repo))
     open(out, "w").write("\n\n".join(parts) + "\n")
 
 
